@@ -220,6 +220,44 @@ def _s3_inherited_operators(program, res):
                 res.fail_at("C24-S3", m, f"operator-not-ordered-by-self:{op}", f"OrderedSet.{op} does not build its result by iterating self")
 
 
+def _s3b_delegating_operators(program, res):
+    """__xor__: the inherited operator hands half of the work to the other operand's own `-` (facts.ABC_SET_MIXINS_DELEGATING_TO_OTHER); an ordered
+    set has to walk the other operand itself to keep that half in the other operand's order"""
+    from .. import facts
+    cls = program.cls("OrderedSet", "OrderedSet")
+    for op, why in sorted(facts.ABC_SET_MIXINS_DELEGATING_TO_OTHER.items()):
+        m = cls.methods.get(op)
+        if m is None:
+            res.fail("C24-S3", "OrderedSet:OrderedSet", f"inherited-operator-delegates-to-other:{op}",
+                     f"OrderedSet does not define {op}; {why}: OrderedSet([7, 0]) ^ d.keys() (and `symmetric_difference`, an alias) iterates the elements "
+                     f"of d in hash order — for column names an order that changes with PYTHONHASHSEED — while ^= and a list operand keep d's order",
+                     "data_algebra/OrderedSet.py", cls.node.lineno)
+            continue
+        res.analysed(m)
+        other = [p for p in m.params() if p != "self"][0]
+        g = cfgmod.build(m.node)
+        d = depsmod.Deps(g, m.params())
+        delegated = [b for b in ast.walk(m.node) if isinstance(b, ast.BinOp) and isinstance(b.op, (ast.Sub, ast.BitXor, ast.BitAnd))
+                     and other in {n_.id for n_ in ast.walk(b.left) if isinstance(n_, ast.Name)} and "OrderedSet" not in unparse(b.left)]
+        walks_self = walks_other = False
+        for r in g.stmt_nodes(("stmt", "return")):
+            for c in ast.walk(r.stmt):
+                if isinstance(c, (ast.ListComp, ast.GeneratorExp)):
+                    roots = d.roots_at(r, c.generators[0].iter)
+                    if "self" in roots and other not in roots:
+                        walks_self = True
+                    if other in roots and "self" not in roots:
+                        walks_other = True
+        # `other` may be rebound to an ordered copy of itself: still the other operand's order
+        if delegated and not any(isinstance(st, ast.Assign) and unparse(st.targets[0]) == other and "OrderedSet" in unparse(st.value) for st in ast.walk(m.node)):
+            res.fail_at("C24-S3", m, f"operator-delegates-to-other:{op}", f"OrderedSet.{op} computes `{unparse(delegated[0])}` with the other operand's own operator: "
+                        f"a keys view or plain set answers with a hash ordered set", delegated[0])
+        elif walks_self and walks_other:
+            res.ok("C24-S3", f"{op} walks self, then the other operand, itself")
+        else:
+            res.fail_at("C24-S3", m, f"operator-not-ordered-by-operands:{op}", f"OrderedSet.{op} does not build its result by iterating self and then the other operand")
+
+
 def _s4_relations(program, res):
     """<=, <, >=, > (issubset / issuperset are aliases) accept any iterable like set's methods do: membership has to be tested in a
     materialised set, not with `in` on the raw argument (an iterator is consumed, a string matches substrings, a Series looks at its index)"""
@@ -250,6 +288,7 @@ def run(program, res, tier):
     res.rule("C24-S3", "operators inherited from collections.abc.Set that order by the other operand are overridden")
     res.rule("C24-S4", "subset / superset relations test membership in a materialised set")
     _s3_inherited_operators(program, res)
+    _s3b_delegating_operators(program, res)
     _s4_relations(program, res)
     _check_filter_helper(program, res, "ordered_intersect", ast.In)
     _check_filter_helper(program, res, "ordered_diff", ast.NotIn)
